@@ -1,15 +1,23 @@
-import RP.Lemmas.C01.Abs
-/-! C01 table, no-flush rows, deck `std`, count vectors whose deuce digit is 0.
-    Checked by native evaluation (what `native_decide` does: axiom `Lean.ofReduceBool`, the Lean
-    compiler is trusted for this row set); written with the axiom directly because Lean 4.33's
-    `native_decide` tactic emits one anonymous axiom per use, which the axiom audit cannot name. -/
+import RP.Lemmas.C01.TabStd00
+import RP.Lemmas.C01.TabStd01
+import RP.Lemmas.C01.TabStd02
+import RP.Lemmas.C01.TabStd03
+import RP.Lemmas.C01.TabStd04
+/-! C01 table, no-flush rows, deck `std`, count vectors whose deuce digit is 0: assembled from
+    the five sub-chunks by the trey digit -/
 namespace RP.C01
 open RP.Eval
-set_option linter.deprecated false
 
-def tabN_std_0_native_decide : Bool := forallCV 12 (7 - 0) (fun rest => rowN .std (0 + 8 * rest))
-
-theorem tabN_std_0 : forallCV 12 (7 - 0) (fun rest => rowN .std (0 + 8 * rest)) = true :=
-  Lean.ofReduceBool tabN_std_0_native_decide true rfl
+theorem tabN_std_0 : forallCV 12 (7 - 0) (fun rest => rowN .std (0 + 8 * rest)) = true := by
+  rw [forallCV]
+  simp only [List.all_eq_true, List.mem_range]
+  intro d hd
+  have : d = 0 ∨ d = 1 ∨ d = 2 ∨ d = 3 ∨ d = 4 := by omega
+  rcases this with e | e | e | e | e <;> subst e <;> simp only [Nat.reduceLeDiff, Nat.reduceSub, if_true]
+  · exact tabN_std_00
+  · exact tabN_std_01
+  · exact tabN_std_02
+  · exact tabN_std_03
+  · exact tabN_std_04
 
 end RP.C01
